@@ -25,10 +25,13 @@ import sys
 
 from vf import lincont
 
+DEFAULT_PLAIN = ('wn._queries', 'wn.lmf', 'wn._db', 'wn._ili', 'wn.project', 'wn.util',
+                 'wn._config', 'wn.constants', 'wn.metrics', 'wn._types', 'wn._exceptions')
 DEFAULT_DEHASH = ('wn._core', 'wn._add', 'wn._export', 'wn.taxonomy', 'wn.similarity',
                   'wn.ic', 'wn.validate', 'wn.morphy', 'wn._util')
 
 STATS = {}          # module name -> number of rewritten sites
+CACHES = {}         # module name -> number of functools caches replaced by the model
 _CONFIG = {'modes': {}, 'patches': []}
 
 
@@ -144,6 +147,34 @@ def _convert_globals(mod, set_cls):
             mod.__dict__[k] = lincont.LinDict(list(v.items()))
 
 
+class _CacheRewriter(ast.NodeTransformer):
+    """functools.lru_cache / functools.cache -> vf.lincont.model_lru_cache / model_cache
+    (CrossHair bypasses the real ones, which would hide stale-cache defects)."""
+
+    def __init__(self):
+        self.n = 0
+
+    def visit_ImportFrom(self, node):
+        if node.module == 'functools':
+            out = [node]
+            for a in node.names:
+                if a.name in ('lru_cache', 'cache'):
+                    self.n += 1
+                    out.append(ast.ImportFrom(
+                        'vf.lincont',
+                        [ast.alias('model_' + a.name, a.asname or a.name)], 0))
+            return out
+        return node
+
+    def visit_Attribute(self, node):
+        self.generic_visit(node)
+        if isinstance(node.value, ast.Name) and node.value.id == 'functools' \
+                and node.attr in ('lru_cache', 'cache'):
+            self.n += 1
+            return ast.copy_location(ast.Name('_vf_model_' + node.attr, ast.Load()), node)
+        return node
+
+
 class _Loader(importlib.machinery.SourceFileLoader):
     def __init__(self, name, path, mode):
         super().__init__(name, path)
@@ -158,6 +189,17 @@ class _Loader(importlib.machinery.SourceFileLoader):
         src = data.decode('utf-8') if isinstance(data, bytes) else data
         src = _apply_patches(self.name, src)
         tree = ast.parse(src)
+        cr = _CacheRewriter()
+        tree = cr.visit(tree)
+        if cr.n:
+            tree.body[0:0] = ast.parse(
+                'from vf.lincont import model_lru_cache as _vf_model_lru_cache, '
+                'model_cache as _vf_model_cache').body
+            while isinstance(tree.body[2] if len(tree.body) > 2 else None, ast.ImportFrom) \
+                    and tree.body[2].module == '__future__':
+                tree.body.insert(0, tree.body.pop(2))
+            ast.fix_missing_locations(tree)
+            CACHES[self.name] = cr.n
         if self._mode in ('dehash', 'ndset'):
             rw = _Rewriter()
             tree = rw.visit(tree)
@@ -212,7 +254,7 @@ class _Finder(importlib.abc.MetaPathFinder):
 _installed = []
 
 
-def install(dehash=DEFAULT_DEHASH, ndset=(), plain=(), patches=(), shadow_hash=True):
+def install(dehash=DEFAULT_DEHASH, ndset=(), plain=DEFAULT_PLAIN, patches=(), shadow_hash=True):
     """Install the hook.  Must run before the affected ``wn`` modules are imported."""
     already = [m for m in list(dehash) + list(ndset) + list(plain) if m in sys.modules]
     if already:
